@@ -208,6 +208,7 @@ class OptimizerGeneric:
             for idvar, var in enumerate(self.problem.variables):
                 var.update(x0[idvar])
             self._x.pop(-1)
+            self.problem.update_optics()
 
     def _fun(self, x):
         """
